@@ -93,7 +93,8 @@ CLAIMED = {
                 "output array, callee contracts for getbit/pack/iotostr/strtoio/dump; obligations discharged by z3 (goal-directed instantiation, "
                 "cvc5 fallback). Under contract: HRS, uncompressed MGE (RGB and composite palettes), raw CM3 lines (one/two pages, with/without "
                 "pattern block), MAX in the seven table-driven pixel modes, uncompressed VEF (three types, palette = six-bit colour code, pixel fields). "
-                "Not under contract: the two floating-point MAX artifact modes (-br/-rb) and PIX pixel positions (sizes only).",
+                "Not under contract: the two floating-point MAX artifact modes (-br/-rb) and PIX pixel positions (sizes only); a bounded PIX stand-in "
+                "(generated files vs the executable specification) runs with every check and is labelled bounded.",
                 level_note=_DEC_NOTE, technique="contract-based deductive verification: ast->VC generation with loop invariants, z3/cvc5"),
     "C17": dict(level_text="Deductive proof that for every valid encoding (defined by a ghost reference decoder that follows the format's token "
                 "semantics) the real decoder's output equals the rendering of the ghost image: run-length MGE, escape-coded RAT, CM3 line "
@@ -107,7 +108,9 @@ CLAIMED = {
     "C19": dict(level_text="Deductive proof, for every byte string, that each decoder terminates (variants for every while loop) and that a normal "
                 "return implies a complete image of the announced size; exceptional exits are enumerated by the VC generator (HRS, RAT, MGE, MAX, "
                 "PIX, CM3, unsquash, VEF start). Damage the format can express (RAT overshoot, MGE terminator position, MAX short rows / bad first "
-                "byte / inconsistent length, PIX non-square, CM3 line count, VEF data length) is a loud exit.",
+                "byte / inconsistent length, PIX non-square, CM3 line count, VEF data length) is a loud exit. The command-line wrappers (argparse, files) are "
+                "outside the contracts: a static I/O frame rule (plain buffered reads, truncating writes) and a bounded stand-in (32 runs of main() on damaged "
+                "files, files and pipes) cover them, labelled bounded.",
                 level_note=_DEC_NOTE, technique="contract-based deductive verification with exceptional postconditions and variants, z3/cvc5"),
 }
 
